@@ -81,6 +81,8 @@ fn run_case(cap: u64, ops: &[Op]) -> Outcome {
     let mut xadded: Vec<u64> = vec![];        // keys whose file the harness wrote behind the cache's back (unknown to the index until a reopen)
     let mut leaked: u64 = 0;                  // reservations of dropped / failed entries (never released by the pinned code)
     let mut slow = false;
+    let mut prev_entries: Option<(String, BTreeMap<u64, u64>)> = None;
+    let mut written: BTreeMap<u64, u64> = BTreeMap::new();      // handle -> bytes written into its temp file so far
     // logical instant of the last *use* of each key, only used by the slow-mode mtime monitor. A two-phase store
     // counts as used when its body was last written (that is what its mtime records), not when it was committed.
     let mut stamp: BTreeMap<u64, u64> = BTreeMap::new(); let mut hstamp: BTreeMap<u64, u64> = BTreeMap::new(); let mut tick = 0u64;
@@ -100,7 +102,7 @@ fn run_case(cap: u64, ops: &[Op]) -> Outcome {
                 let s = res_str(&r);
                 if let Ok(Ok(e)) = r { handles.insert(next_handle, (e, *k, *n)); hstamp.insert(next_handle, tick); next_handle += 1; }
                 s }
-            Op::Write(h, m) => { if let Some((e, _, _)) = handles.get_mut(h) { e.as_file_mut().write_all(&vec![b'y'; *m as usize]).unwrap(); if *m > 0 { hstamp.insert(*h, tick); } } "-" }
+            Op::Write(h, m) => { if let Some((e, _, _)) = handles.get_mut(h) { e.as_file_mut().write_all(&vec![b'y'; *m as usize]).unwrap(); *written.entry(*h).or_insert(0) += *m; if *m > 0 { hstamp.insert(*h, tick); } } "-" }
             Op::Commit(h) => match handles.remove(h) {
                 None => "ioErr",
                 Some((e, k, reserved)) => {
@@ -149,6 +151,14 @@ fn run_case(cap: u64, ops: &[Op]) -> Outcome {
         let cont: String = (0..NKEYS).map(|k| if c.contains_key(keyname(k)) { '1' } else { '0' }).collect();
         let fl: Vec<String> = files.iter().map(|(k, n)| format!("{}:{}", k, n)).collect();
         let obs = format!("size={} len={} contains={} files={}", c.size(), c.len(), cont, fl.join(","));
+        // C07: an entry that is refused because it cannot fit is refused *without disturbing the entries that are there*
+        // (the statement speaks of an entry *larger than the whole cache*; a store refused because of other in-flight reservations may have evicted on the way)
+        let oversize = match op { Op::Ins(_, n) | Op::Prep(_, n) => *n > cap, Op::Commit(h) => written.get(h).copied().unwrap_or(0) > cap, _ => false };
+        if res == "tooLarge" && oversize { if let Some((pc, pf)) = &prev_entries {
+            let opkey: Option<u64> = match op { Op::Ins(k, _) | Op::Prep(k, _) => Some(*k), _ => None };
+            let lost: Vec<u64> = (0..NKEYS).filter(|k| Some(*k) != opkey && pc.as_bytes()[*k as usize] == b'1' && (cont.as_bytes()[*k as usize] != b'1' || (pf.contains_key(k) && !files.contains_key(k)))).collect();
+            if !lost.is_empty() { out.fails.push(Fail { kind: "refused_store_evicted_entries".into(), detail: format!("{} was refused (too large) and yet the entries of keys {:?} are gone", op_str(op), lost) }); } } }
+        prev_entries = Some((cont.clone(), files.clone()));
         let opline = if matches!(op, Op::Reopen) && !extra.is_empty() { format!("reopen {}", extra) } else { op_str(op) };
         out.lines.push(format!("{} -> {} | {}", opline, res, obs));
         // ---- monitor: C07 evaluated on the implementation
